@@ -330,6 +330,12 @@ func (st *Store) Apply(args []string) interface{} {
 	} else if !validKey(k) {
 		return Err("key format")
 	}
+	// a field or member name longer than common.MaxSubKeyLen is refused (and
+	// the command changes nothing, whatever came before it in the argument list)
+	if subKeyTooLong(name, a) && !(name == "hdel" && len(st.Hash[k]) == 0) {
+		// (HDEL on a hash that does not exist answers 0 before it looks at its arguments)
+		return Err("sub key too long")
+	}
 	switch name {
 	// ---- KV ----
 	case "set":
@@ -1364,3 +1370,35 @@ func fmtc(v interface{}) string {
 
 // Canon returns the canonical text of a reply (for traces).
 func Canon(v interface{}) string { return fmtc(v) }
+
+// MaxSubKeyLen mirrors common.MaxSubKeyLen (documented limit of field and
+// member names).
+const MaxSubKeyLen = 10240
+
+func subKeyTooLong(name string, a []string) bool {
+	long := func(x string) bool { return len(x) > MaxSubKeyLen }
+	switch name {
+	case "hdel":
+		for _, x := range a {
+			if long(x) {
+				return true
+			}
+		}
+	case "hmset":
+		for i := 0; i < len(a); i += 2 {
+			if long(a[i]) {
+				return true
+			}
+		}
+	case "zadd":
+		for i := 1; i < len(a); i += 2 {
+			if long(a[i]) {
+				return true
+			}
+		}
+	}
+	// (commands with a leader-side pre-check - sadd, srem, zrem ... - answer
+	// "nothing to do" before the limit is looked at; they are not generated
+	// with over-long names)
+	return false
+}
